@@ -74,6 +74,41 @@ CHECKS = {
             "Generated-input search with exact counting oracle and exact-rational reference mutual information; each law of the statement (non-negativity, symmetry, diagonal entropy, upper bound, relabelling, reordering, pooling, uniform weights, channel-capacity normalisation, KL) is its own clause; rejection of invalid ids is decided in child processes so that heap corruption is a recorded violation.",
             "OpenMP schedule not controllable; ids < 2^31.",
             "DESIGN.md §2 C18"),
+    "C01": ("exploration",
+            "Hypothesis-generated distinct point sets (lattice construction) x dtypes x metrics x entry points x cold/warm starts vs float64 reference metric: validity predicates for centers, distances, nearest-center, labels, self-labels, and bit-exact input freeze; exhaustive tiny PAM enumeration in thorough",
+            "Generated-input search with an oracle independent of libdist (float64 numpy recomputation); every sentence of the statement is a clause, every entry point (function and estimator forms of k-centers, k-medoids, k-hybrid) and warm-start form is a generated dimension; PAM-update branch coverage is measured by a reference replay.",
+            "Distinct points by construction; kmedoids(n_iters=0) and k > n cold starts outside the domain; OpenMP pinned to one thread (thread count is C13's dimension).",
+            "DESIGN.md §2 C01"),
+    "C02": ("exploration",
+            "Hypothesis-generated data/metrics/stopping criteria (radius cutoffs at safe midpoints of the distance set)/initial centers: independent Gonzalez replay (tie-tolerant), logged radius sequence, brute-force OPT_k over all subsets for the 2-approximation, stop-on-cue predicates, differential plain vs triangle-inequality shortcut; exhaustive small stopping sub-domain",
+            "Generated-input search with reference replay and brute-force optimum; cutoffs are constructed so no comparison sits on a rounding boundary; a count-bounded watchdog turns a non-terminating run into a violation.",
+            "2*OPT bound asserted only where Gonzalez' theorem applies (cold start or single data-frame init); n_clusters=None with cutoff 0 outside the domain.",
+            "DESIGN.md §2 C02"),
+    "C04": ("exploration",
+            "Hypothesis-generated count matrices (strongly connected by construction where required) x 9 containers x priors x population flag vs dense reference arithmetic; stationarity / detailed-balance residuals; differential dense vs every sparse format; input snapshots incl. sparse internals; exhaustive builder x layout x prior product on a fixed matrix",
+            "Generated-input search against closed-form dense references (row normalisation, symmetrisation, stationary solve) with residual tolerances 1e-9..1e-13; container type and input immutability are checked structurally.",
+            "scipy *_array containers observed, not asserted; np.matrix accepted as legitimately densified result.",
+            "DESIGN.md §2 C04"),
+    "C07": ("exploration",
+            "Hypothesis-generated irreducible chains (dense positive, sparse+cycle, reversible, periodic) x source/sink sets x containers x lag times: residuals of the first-step equations computed with dense numpy, all-pairs vs single-sink differential, lag-time scaling, dense vs sparse, inputs unchanged",
+            "Generated-input search where the oracle is the defining linear system itself (residual check), independent of how the library solves it.",
+            "Irreducible row-stochastic input; tolerances 1e-8..1e-10 scaled by the solution magnitude.",
+            "DESIGN.md §2 C07"),
+    "C08": ("exploration",
+            "Hypothesis-generated reversible ergodic chains with given or computed populations: reactive flux vs definition built from a reference committor solve, net flux = positive part of f - f^T, conservation at intermediate states, source/sink boundary conditions, reactive populations as a probability vector; dense and sparse containers",
+            "Generated-input search against the definitions evaluated with an independent committor solve; conservation laws as invariants.",
+            "Reversible chains (constructed from symmetric weights); tolerances 1e-10..1e-12.",
+            "DESIGN.md §2 C08"),
+    "C09": ("exploration",
+            "Hypothesis-generated data/k/sweep counts/seeds/explicit proposal lists: cost (reference mean squared distance) non-increasing over n_iters = 1..s via public API and via _kmedoids_iterations, hybrid <= k-centers, cluster count and center-frame invariants, bitwise reproducibility with fixed seed / proposals, warm-state chains; exhaustive tiny enumeration in thorough",
+            "History property decided by running the public API with increasing sweep counts on identical inputs (explicit proposals / integer seeds make sweep s+1 a deterministic continuation, verified in the source) and comparing reference costs.",
+            "Distinct points; cold k-medoids limited to k where k random frames are distinct with probability >= 1e-3.",
+            "DESIGN.md §2 C09"),
+    "C12": ("exploration",
+            "Hypothesis-generated strongly connected count matrices (integer/real, symmetric to 10^3-skewed, with zeros): termination without internal assertion, log-likelihood vs generated reversible competitors / transpose estimate / independent fixed point, Prinz self-consistency residual, compiled vs pure-Python differential, non-convergence warning; exhaustive 3-state {0,1,4} matrices in thorough",
+            "Generated-input search with likelihood-dominance and fixed-point residual oracles plus a differential between the two implementations; one recorded known finding (round-off breakdown on ill-conditioned matrices).",
+            "Tolerances tolR = tolD = 1e-5, tolL = 1e-8(1+|L|) calibrated at design time; cases needing > 3000 python sweeps skipped (<1%).",
+            "DESIGN.md §2 C12"),
 }
 
 NOT_YET = {}
